@@ -35,6 +35,10 @@ func runC12(c *an.Ctx) {
 	// round 7
 	awaitedToTheEnd(c, "R12m", "notify")
 	r12n(c)
+	// round 8
+	r12o(c)
+	r12p(c)
+	r12q(c)
 }
 
 const ccPkg = "core/controlcommands"
